@@ -58,6 +58,7 @@ def libCall (id : String) (args : List Val) : R Val :=
   | "Nil", [] => .ok .nil
   | "Half", [.f64 x] => .ok (.f64 (x / 2))
   | "I64", [.int .int64 n] => .ok (.int .int64 n)
+  | "Twice", [.int .int n] => .ok (.int .int (wrap .int (2 * n)))
   | "K8", [.int .int8 n] => .ok (.int .int8 n)
   | "K16", [.int .int16 n] => .ok (.int .int16 n)
   | "K32", [.int .int32 n] => .ok (.int .int32 n)
